@@ -174,6 +174,25 @@ func patternPopulation(c *ctx, forC10 bool) []patCase {
 		}
 		add(fmt.Sprintf("rand%d", i), t, "")
 	}
+	// 6. the start-of-string marker (regex = [ "^" ] expr): for a whole-match language it changes nothing. In front of
+	// plain literals (where a shortcut around the pattern parser would be tempting) and of every 61st other pattern.
+	base := len(out)
+	for i, w := range []string{"a", "ab", "abc", "begin", "end", ":=", "=>", "<=", "while", "x1", "_", "-", ",", "a,b", "%", "#", "&&", "if", "then", "0", "00", "A", "Zz", "~", "!", "@", "a b", "'", "\"", ";", "<>", "=", "==", "a-b", "a:b"} {
+		var kids []*reNode
+		for _, r := range w {
+			kids = append(kids, lit(r))
+		}
+		t := kids[0]
+		if len(kids) > 1 {
+			t = cat(kids...)
+		}
+		out = append(out, patCase{name: fmt.Sprintf("anchored-literal%d", i), tree: t, text: "^" + t.print(), ex: "start_marker_before_plain_literals"})
+	}
+	for i := 0; i < base; i += 61 {
+		if pc := out[i]; !strings.HasPrefix(pc.text, "^") {
+			out = append(out, patCase{name: "anchored-" + pc.name, tree: pc.tree, text: "^" + pc.text})
+		}
+	}
 	return out
 }
 
@@ -196,7 +215,7 @@ func init() {
 		level: "exploration",
 		rule: "patterns: (1) all syntax trees of the documented pattern grammar up to a size bound over atoms {a,b,[ab]} x 10 quantifier forms, (1b) 6 atoms incl. '.', [^a] x all 28 quantifier forms (lazy or not), " +
 			"(2) every class, POSIX class, escaped metacharacter, printable literal and \\x form individually in 8 contexts, bare / in [] / in [^], (3) concatenations with nullable operands, " +
-			"(4) every predefined $NAME pattern, (5) seeded random trees to depth 4. Each pattern is decided by FULL language equality (BFS over the product of the reference automaton and each " +
+			"(4) every predefined $NAME pattern, (5) seeded random trees to depth 4, (6) the start-of-string marker ^ in front of plain literals and of every 61st other pattern. Each pattern is decided by FULL language equality (BFS over the product of the reference automaton and each " +
 			"emerge stage: NFA, ToDFA, Minimize, EliminateDeadStates, ReindexStates, and Spec.DFA() end-to-end), not by sampling strings. non-trivial = reference language is not {} and not {eps}; distinct by pattern text.",
 		assumptions: []string{
 			"reference meaning of each construct is the harness' transcription of docs/5-definitions.md (R2); '.' and negation range over U+0001..U+007F; \\s = [ \\t\\n\\r\\f]",
